@@ -41,6 +41,34 @@ CHECKS = {
         note="Trusts Python integer arithmetic and the reading of the statement (floor division, remainder with divisor's sign). "
              "Unary minus on a signed non-negative representation is unreachable from the API and not judged.",
         design="DESIGN.md 5-C08"),
+    "C10": dict(
+        technique="reachability reference model (BFS over ==-classes) + metamorphic closure laws + fuel-bounded termination monitor (logical steps, hook H2)",
+        category="exploration",
+        text="Closure bodies over generated finite graphs (successor tables with cycles, diamonds, self-loops; modular and guarded arithmetic; bodies "
+             "containing ALT/OR/let/if/nested closures; one- and two-slot states; junk below) are run from 1-4 start stacks: the result multiset must equal "
+             "the model's reachable set (each ==-class once), E+ must equal distinct(E E*), E? must equal (E,), E**, E+*, E*+ must collapse, results for "
+             "several inputs must be the union of the single-input results, no stack may appear twice for one input, and every run must finish within a "
+             "fuel budget (non-termination is decided in logical steps).  DWARF: child*, parent*, @AT_type* ... from every DIE of the sample files.",
+        note="Unbounded termination is restated as bounded progress on finite graphs; infinite reachable sets (1+) are outside the statement and never generated.",
+        design="DESIGN.md 5-C10"),
+    "C11": dict(
+        technique="word-level reference model + history-independence metamorphic relation over a value pool x depths x histories; stack-profile invariant hook H3",
+        category="exploration",
+        text="Every core word is applied to operand tuples from a 31-value pool (boundary integers per domain, booleans, type constants, strings with NUL/high bytes, "
+             "nested/heterogeneous sequences, a block) at stack depths 0-6 reached through direct pushes, push/drop detours, let bindings, id-block scopes and the API "
+             "input stack with arbitrary positions; results (values, domains, positions), diagnostics and raised errors are compared with the list/byte-string/integer "
+             "model, and across histories.  H3 recomputes the cached type profile after every push/pop/drop/copy of every stack in the run.",
+        note="?match is judged on a portable ERE subset; cross-type/cross-domain order cells are skipped.  Arity-2 pairs are sampled in the quick tier, exhaustive in thorough.",
+        design="DESIGN.md 5-C11"),
+    "C15": dict(
+        technique="metamorphic notation monitor: original vs rewritten program on the real engine, simplify on/off",
+        category="exploration",
+        text="Each generated program is re-rendered with random layout (blanks, tabs, newlines, the three comment styles between any two tokens, also inside %( %)), "
+             "alternative escape spellings, split string literals, redundant parentheses, and rewritten by the documented equivalences (%s/%d/%x/%o/%b vs %( %), "
+             "E? vs (E,), if vs (?(C) A, !(C) B), ?(E) vs ([E] != []), infix vs the let form), and compiled without tree::simplify; compile verdict and "
+             "results must be identical.  Raw strings are compared with their spelled-out normal literals.",
+        note="Both sides are runs of the engine; sequence equality for layout/spelling/parentheses/simplify, multiset equality for the structural equivalences.",
+        design="DESIGN.md 5-C15"),
     "C16": dict(
         technique="bitmask/set reference model vs coverage.cc on all (state, operation) transitions of a small universe + random sequences; canonical-form hook; Python set model vs aset words",
         category="exploration",
